@@ -314,19 +314,17 @@ func sigMutants(t *rapid.T, f quaiFields, foreign *ecdsa.PrivateKey, foreignSign
 	bad("s=2^256-1", func(g *quaiFields) { g.s = new(big.Int).Sub(two256, big1) })
 	bad("r+2^256", func(g *quaiFields) { g.r.Add(g.r, two256) }) // same low 32 bytes
 	bad("s+2^256", func(g *quaiFields) { g.s.Add(g.s, two256) })
-	bad("r<0", func(g *quaiFields) { g.r.Neg(g.r) })
-	bad("s<0", func(g *quaiFields) { g.s.Neg(g.s) })
 	// high S: (r, N-s, v^1) is the second valid ECDSA signature of the same key and payload
 	bad("high-s,v^1", func(g *quaiFields) { g.s.Sub(curveN, g.s); g.v.Xor(g.v, big1) })
 	bad("high-s", func(g *quaiFields) { g.s.Sub(curveN, g.s) })
 	bad("s=halfN+1", func(g *quaiFields) { g.s.Add(curveHalfN, big1) })
 	// V out of range
 	vs := []*big.Int{big.NewInt(int64(rapid.IntRange(2, 255).Draw(t, "vAny"))), big.NewInt(2), big.NewInt(3), big.NewInt(27), big.NewInt(28),
-		big.NewInt(229), big.NewInt(255), big.NewInt(256), big.NewInt(257), big.NewInt(-1), big.NewInt(-27),
-		new(big.Int).Add(new(big.Int).Lsh(big1, 64), f.v),                                        // same low 64 bits
-		new(big.Int).Add(big.NewInt(35), new(big.Int).Mul(f.chainID, big.NewInt(2))),             // EIP-155 style
-		new(big.Int).Add(big.NewInt(36), new(big.Int).Mul(f.chainID, big.NewInt(2))),             //
-		new(big.Int).Add(new(big.Int).Lsh(big1, 8), f.v), new(big.Int).Sub(f.v, big.NewInt(256)), // same low byte
+		big.NewInt(229), big.NewInt(255), big.NewInt(256), big.NewInt(257),
+		new(big.Int).Add(new(big.Int).Lsh(big1, 64), f.v),                            // same low 64 bits
+		new(big.Int).Add(big.NewInt(35), new(big.Int).Mul(f.chainID, big.NewInt(2))), // EIP-155 style
+		new(big.Int).Add(big.NewInt(36), new(big.Int).Mul(f.chainID, big.NewInt(2))), //
+		new(big.Int).Add(new(big.Int).Lsh(big1, 8), f.v),                             // same low byte
 	}
 	for _, v := range vs {
 		if v.IsUint64() && v.Uint64() <= 1 {
@@ -356,8 +354,6 @@ func sigMutants(t *rapid.T, f quaiFields, foreign *ecdsa.PrivateKey, foreignSign
 
 func vClass(v *big.Int) string {
 	switch {
-	case v.Sign() < 0:
-		return "negative"
 	case v.BitLen() > 64:
 		return ">64bit"
 	case v.BitLen() > 8:
@@ -367,6 +363,32 @@ func vClass(v *big.Int) string {
 	default:
 		return "2..228"
 	}
+}
+
+// canon is the harness' own structural rendering of the transaction (nil and empty data /
+// access list are the same transaction); "does the mutant differ" must not be decided with the
+// encoder under test.
+func (f quaiFields) canon() string {
+	var b bytes.Buffer
+	to := "create"
+	if f.to != nil {
+		to = fmt.Sprintf("%x", f.to.Bytes())
+	}
+	fmt.Fprintf(&b, "chain=%v|nonce=%d|price=%v|gas=%d|to=%s|value=%v|data=%x|al=", f.chainID, f.nonce, f.gasPrice, f.gas, to, f.value, f.data)
+	for _, tup := range f.al {
+		fmt.Fprintf(&b, "(%x:", tup.Address.Bytes())
+		for _, k := range tup.StorageKeys {
+			fmt.Fprintf(&b, "%x,", k[:])
+		}
+		b.WriteString(")")
+	}
+	if f.parentHash != nil {
+		fmt.Fprintf(&b, "|work=%x,%x,%x", f.parentHash[:], f.mixHash[:], f.workNonce[:])
+	}
+	if f.v != nil {
+		fmt.Fprintf(&b, "|v=%v|r=%v|s=%v", f.v, f.r, f.s)
+	}
+	return b.String()
 }
 
 func quaiWire(tx *types.Transaction) []byte {
@@ -422,6 +444,7 @@ func TestC03_QuaiSender(t *testing.T) {
 		}
 		labels := []string{"valid", "loc_" + loc.Name()}
 		baseWire := quaiWire(base)
+		baseCanon := f.canon()
 		{
 			var pm types.ProtoTransaction
 			dec := new(types.Transaction)
@@ -471,8 +494,8 @@ func TestC03_QuaiSender(t *testing.T) {
 				sg = signer
 			}
 			mtx := m.f.tx()
-			mw := quaiWire(mtx)
-			differs := !bytes.Equal(mw, baseWire) || m.signer != nil || m.f.v.Cmp(f.v) != 0 || m.f.r.Cmp(f.r) != 0 || m.f.s.Cmp(f.s) != 0
+			changed := m.f.canon() != baseCanon
+			differs := changed || m.signer != nil
 			ml := []string{"mutant", "field_" + m.field}
 			if m.mustError {
 				ml = append(ml, "must_error")
@@ -498,7 +521,7 @@ func TestC03_QuaiSender(t *testing.T) {
 				stats.Violation(t, part, "C03/quai/cache-changes-verdict/"+name, fmt.Sprintf("first Sender = %v,%v second = %v,%v", got, err, got2, err2), dump(m, ""))
 			}
 			if m.signer == nil || m.kind != "replay@other" {
-				if h := mtx.Hash(); h == baseHash && !bytes.Equal(mw, baseWire) {
+				if h := mtx.Hash(); h == baseHash && changed {
 					stats.Violation(t, part, "C03/quai/hash-collision/"+name, fmt.Sprintf("mutant %s has the transaction hash %x of the original (pool sender cache key)", name, h), dump(m, ""))
 				}
 			}
